@@ -101,7 +101,34 @@ func All() []*Timer { return timers }
 // IsArmed reports whether the timer is armed.
 func (t *Timer) IsArmed() bool { return t.armed }
 
-func Now() Time             { return time.Now() }
-func Since(t Time) Duration { return time.Since(t) }
+// NowHook, when set, is the virtual clock (the breaker driver points it at the
+// scripted ticker so that the package's own SystemTicker reads scripted time).
+var NowHook func() Time
+
+func Now() Time {
+	if NowHook != nil {
+		return NowHook()
+	}
+	return time.Now()
+}
+func Since(t Time) Duration { return Now().Sub(t) }
+func Until(t Time) Duration { return t.Sub(Now()) }
 func Sleep(d Duration)      {}
-func Unix(s, n int64) Time  { return time.Unix(s, n) }
+
+// the rest of package time that code under test may reasonably reach for
+type Month = time.Month
+type Weekday = time.Weekday
+type Location = time.Location
+
+var (
+	UTC   = time.UTC
+	Local = time.Local
+)
+
+func Unix(s, n int64) Time                 { return time.Unix(s, n) }
+func UnixMilli(ms int64) Time              { return time.UnixMilli(ms) }
+func UnixMicro(us int64) Time              { return time.UnixMicro(us) }
+func ParseDuration(s string) (Duration, error) { return time.ParseDuration(s) }
+func Date(year int, month Month, day, hour, min, sec, nsec int, loc *Location) Time {
+	return time.Date(year, month, day, hour, min, sec, nsec, loc)
+}
